@@ -149,6 +149,7 @@ type Policy struct {
 	Crash       int // permille per step
 	EnvProb     int // permille per step: run one environment operation if any is enabled
 	AdvanceProb int // permille per step: advance the clock although other actions are enabled
+	EnvWhenIdle bool // quiet stages: environment operations run whenever the system is idle
 	FaultFilter func(r *ReqRec) bool
 }
 
